@@ -96,6 +96,35 @@ def check(prog, rep):
             same = tr[key].eq(ti[key])
             rep.ob("R15.2", f"gradient[{key}]", same, "recursive and iterative walker build the same derivative term" if same else f"the two walkers build different derivative terms for {key}", loc=prog.func(PAIRS[0][2]).loc, detail="term")
 
+    # ------------------------------------------------------------------ R15.2 leaves: sibling arms are the same code modulo names
+    import re
+    for label, r, dr, i, di in pairs:
+        if label == "degree":
+            continue
+        for k in ("Constant", "Parameter", "Variable"):
+            ar, ai = exact_arm(dr, prog, k), exact_arm(di, prog, k)
+            if ar is None or ai is None or k not in ar.kinds:
+                continue
+            if k not in ai.kinds:
+                rep.ob("R15.2", f"{label}[{k}]", False, f"{r.name} has its own arm for {k} but {i.name} handles it in the arm for {ai.kinds}: the deep-tree path treats {k} nodes differently from the shallow path", loc=f"{i.module.rel}:{ai.lineno}", detail="leaf")
+                continue
+            a, b = _leaf_sig(ar, dr.subject), _leaf_sig(ai, di.subject)
+            rep.ob("R15.2", f"{label}[{k}]", a == b, f"both siblings treat {k} leaves alike ({a[:60]})" if a == b else f"the siblings treat {k} leaves differently: {r.name}: {a[:70]}  vs  {i.name}: {b[:70]}", loc=f"{i.module.rel}:{ai.lineno}", detail="leaf")
+
+    # ------------------------------------------------------------------ R15.2 siblings consult the same node state
+    def node_attrs(f, subj):
+        out = set()
+        for n in walk_local(f.node):
+            if isinstance(n, ast.Attribute) and isinstance(n.value, ast.Name) and n.value.id == subj and isinstance(n.ctx, ast.Load):
+                out.add(n.attr)
+            if isinstance(n, ast.Call) and dotted(n.func) in ("getattr", "hasattr") and len(n.args) >= 2 and isinstance(n.args[0], ast.Name) and n.args[0].id == subj and isinstance(n.args[1], ast.Constant):
+                out.add(n.args[1].value)
+        return out
+
+    for label, r, dr, i, di in pairs:
+        extra = {a for a in node_attrs(i, di.subject) - node_attrs(r, dr.subject) if a.startswith("_") and a not in ("_numpy_func", "_variables", "_expressions")}
+        rep.ob("R15.2", f"{label}[node-state]", not extra, f"{i.name} reads the same node attributes as {r.name}" if not extra else f"{i.name} consults private node state {sorted(extra)} that {r.name} does not: the deep-tree answer can depend on what was computed earlier, not only on the formula", loc=i.loc, detail="same-node-state")
+
     # ------------------------------------------------------------------ R15.3 stack discipline
     ba = exact_arm(dit, prog, "BinaryOp")
     roles = _child_roles(ba, arm_env(ba), dit.subject, it.name, "iterative")
@@ -196,6 +225,42 @@ def check(prog, rep):
         "interpreter's frame budget and is not decided."
     )
     rep.note("the depth estimator follows the left spine only (by design); right-deep trees are outside the property's 'term by term accumulation'")
+
+
+def _leaf_sig(arm, subj):
+    """Signature of a leaf arm that is insensitive to local names: which attributes of the node are read where
+    (build time vs inside the closure), which comparisons are made, which constants are produced."""
+    build, call_time, cmps, consts = set(), set(), set(), []
+    lam_nodes = set()
+    for st in arm.body:
+        for n in ast.walk(st):
+            if isinstance(n, ast.Lambda):
+                for x in ast.walk(n.body):
+                    lam_nodes.add(id(x))
+    aliases = {subj}
+    for st in arm.body:
+        for n in ast.walk(st):
+            if isinstance(n, ast.Assign) and isinstance(n.targets[0], ast.Name) and isinstance(n.value, ast.Name) and n.value.id in aliases:
+                aliases.add(n.targets[0].id)
+    lam_bound = set()
+    for st in arm.body:
+        for n in ast.walk(st):
+            if isinstance(n, ast.Lambda):
+                for arg, dv in zip(n.args.args[::-1], n.args.defaults[::-1]):
+                    if isinstance(dv, ast.Name) and dv.id in aliases:
+                        lam_bound.add(arg.arg)
+    for st in arm.body:
+        for n in ast.walk(st):
+            if isinstance(n, ast.Attribute) and isinstance(n.value, ast.Name):
+                if n.value.id in aliases and id(n) not in lam_nodes:
+                    build.add(n.attr)
+                if id(n) in lam_nodes and (n.value.id in lam_bound or n.value.id in aliases):
+                    call_time.add(n.attr)
+            if isinstance(n, ast.Compare):
+                cmps.add(type(n.ops[0]).__name__ + ":" + ",".join(sorted(x.attr if isinstance(x, ast.Attribute) else "obj" for x in [n.left, n.comparators[0]])))
+            if isinstance(n, ast.Call) and dotted(n.func) == "Constant" and n.args and isinstance(n.args[0], ast.Constant):
+                consts.append(n.args[0].value)
+    return f"build-time reads {sorted(build)}, call-time reads {sorted(call_time)}, tests {sorted(cmps)}, constants {consts}"
 
 
 def registered_gradient_kinds(prog):
